@@ -161,7 +161,7 @@ func closeTo(got, want, scale float64) bool {
 	}
 	tol := 1e-9*math.Max(scale, math.Abs(want)) + 1e-10
 	d := math.Abs(got - want)
-	if s := math.Max(scale, math.Abs(want)); s > 0 {
+	if s := math.Max(scale, math.Abs(want)); s > 0 && d <= tol {
 		evid.RelErr(d / math.Max(s, 1e-1))
 	}
 	return d <= tol
